@@ -128,7 +128,7 @@ class Check:
             for n, (key, v) in enumerate(sorted(seen.items())):
                 if n >= 25:
                     break
-                h = hashlib.blake2b(key.encode(), digest_size=6).hexdigest()
+                h = hashlib.blake2b(key.encode('utf-8', 'backslashreplace'), digest_size=6).hexdigest()
                 path = os.path.join(rdir, '%s.json' % h)
                 with open(path, 'w') as f:
                     json.dump({'property': self.pid, 'key': key, 'what': v['what'], 'case': v['case']},
